@@ -4,5 +4,6 @@
 # of defect D2 (obligation Melda.GenD2.fixture_unsafe: it must be rejected).
 set -e
 cd "$(dirname "$0")/.."
-python3 tools/lockx.py /repo/src/melda.rs /repo/src/datastorage.rs lean/Melda/Gen/LockProgs.lean Melda.Gen true
+R=${MELDA_REPO:-/repo}
+python3 tools/lockx.py $R/src/melda.rs $R/src/datastorage.rs lean/Melda/Gen/LockProgs.lean Melda.Gen true
 python3 tools/lockx.py corpus/locks/melda_d2_prefix.rs corpus/locks/datastorage_d2_prefix.rs lean/Melda/Gen/LockFixtureD2.lean Melda.GenD2 false
